@@ -13,7 +13,7 @@ META = dict(
     technique="TLA+ spec of chunk store / writer / reader; TLC exhaustive on small constants; Read/Decode/Encode/Remove call logs of the real package and B-tree scans trace-validated by TLC",
     level="model_checking",
     level_text="TLC enumerates all behaviours of the writer/reader state machine for 2 keys, <=3 chunks per entry, chunk lengths {1,3}, every Read-capacity sequence, writers and a reader interleaved (exhaustive within the constants) and checks the read-back, update-replaces and contiguity invariants in every state; the same actions then accept or reject, event by event, call logs recorded from the real code for values from 2 bytes to megabytes (chunks far beyond the json.Decoder buffer), exhaustive small Read-capacity patterns on the real reader, add/update/remove programs over four keys and seeded random programs, with the invariants evaluated on every step of every implementation trace.",
-    level_note="Byte equality of payloads is outside TLA+: every value carries its own id and is regenerated from (id, kind, size) on the Go side and compared with the decoded value; TLC decides which id, which lengths, which EOF. The io.Reader inside the json.Decoder is reached by reflection (field r) to log its Read calls and to drive it with chosen capacities. One chunk = one Encoder.Encode call (how the package writes); AddChunk/UpdateChunk/RemoveChunk (raw chunk API) and concurrent transactions are not exercised. Filesystem backend with in-memory L2 cache, three value placements.",
+    level_note="Byte equality of payloads is outside TLA+: every value carries its own id and is regenerated from (id, kind, size) on the Go side and compared with the decoded value; TLC decides which id, which lengths, which EOF. The io.Reader inside the json.Decoder is reached by reflection (field r) to log its Read calls and to drive it with chosen capacities. One chunk = one Encoder.Encode call (how the package writes); AddChunk/UpdateChunk/RemoveChunk (raw chunk API) and concurrent transactions are not exercised. Filesystem backend with in-memory L2 cache, three value placements (separate segment, globally cached, actively persisted); commits are stuttering steps of the specification, so a scan after Commit must show what the calls before it produced. The trace configuration keeps the finding action ReadPendingLastStuck (reader defect repaired by bce4f3ae) enabled next to the intended action; a trace counts as held only if TLC finds an explanation that does not use it, any trace that needs it is reported (signature reader:chunk-redelivered-after-partial-read). After 8 rejected traces the remaining traces of a run are not validated (each rejection costs a TLC run).",
     design_ref="C31",
 )
 
@@ -29,7 +29,7 @@ def norm(evs):
     return out
 
 
-def validate(c, traces, chunk_lines=5000, parallel=3):
+def validate(c, traces, chunk_lines=5000, parallel=3, max_rejections=8):
     """Validate traces with StreamTrace.  Returns (ends, rejections): ends[name] = set of booleans
     ('this explanation used the finding action'), rejections as in vlib.validate_traces."""
     from concurrent.futures import ThreadPoolExecutor
@@ -42,10 +42,12 @@ def validate(c, traces, chunk_lines=5000, parallel=3):
     if cur:
         batches.append(cur)
 
+    total_rej = [0]
+
     def one(bi):
         pending = list(batches[bi])
         e, rj, st, tr, nv, k = {}, [], 0, 0, 0, 0
-        while pending:
+        while pending and total_rej[0] < max_rejections:
             lines, index = [], []
             for ti, (name, evs) in enumerate(pending):
                 lines.append(json.dumps({"ev": "Reset", "trace": name})); index.append((ti, -1))
@@ -81,6 +83,7 @@ def validate(c, traces, chunk_lines=5000, parallel=3):
                 ti, ei = index[hwm]
                 name, evs = pending[ti]
                 inv = r.violated if r.violated not in (None, "postcondition") else None
+                total_rej[0] += 1
                 rj.append(dict(trace=name, index=ei, event=evs[ei] if ei >= 0 else None, events=evs, invariant=inv,
                                tlc_tail=r.out[-1500:] if inv else ""))
                 for nm, _ in pending[ti:]:
@@ -94,7 +97,7 @@ def validate(c, traces, chunk_lines=5000, parallel=3):
             ends.update(e); rej += rj
             c.cov["states"] += st; c.cov["transitions"] += tr
             c.cov["traces_validated_against_impl"] += nv
-    return ends, rej
+    return ends, rej, total_rej[0] >= max_rejections
 
 
 def compact(e):
@@ -167,7 +170,7 @@ def run(c):
             raise vlib.InfraError("driver printed no summary: %s" % p.stdout[-500:])
         traces += vlib.split_traces(vlib.read_ndjson(out))
     full = {n: e for n, e in traces}
-    ends, rej = validate(c, [(n, norm(e)) for n, e in traces], parallel=c.pick(3, 5))
+    ends, rej, capped = validate(c, [(n, norm(e)) for n, e in traces], parallel=c.pick(3, 5))
 
     # 3. verdicts
     for x in rej[:5]:
@@ -182,7 +185,7 @@ def run(c):
         c.report(sig,
                  what, dict(trace=x["trace"], events=full[x["trace"]][:x["index"] + 1][-60:], rejected_index=x["index"], tlc=x["tlc_tail"]))
     stuck = sorted(n for n, s in ends.items() if s == {True})
-    for n in stuck:
+    for n in stuck[:5]:
         evs = full[n]
         # first place where a value comes out twice
         seen, where = {}, None
@@ -200,7 +203,7 @@ def run(c):
                  "several Reads the reader serves the same chunk index again (value decoded twice at event %s)" % (n, where),
                  dict(trace=n, events=evs[lo:(where or 0) + 3], duplicate_at=where))
     missing = [n for n, _ in traces if n not in ends and n not in [x["trace"] for x in rej]]
-    if missing:
+    if missing and not capped:      # (after max_rejections rejections the remaining traces are not validated)
         raise vlib.InfraError("traces without END marker: %s" % missing[:5])
 
     # 4. evidence
